@@ -34,6 +34,12 @@ class Func:
         self.entry = None
         self.exit = None
         self.params = re.findall(r'([A-Za-z_][A-Za-z0-9_]*)\s*(?:,|\)$|\)\s*$)', sig[sig.index('('):]) if '(' in sig else []
+        self.ptypes = {}     # parameter -> declared type text ("whawty_response_t *", "char *")
+        if '(' in sig:
+            for a in sig[sig.index('(') + 1:sig.rindex(')')].split(','):
+                mm = re.fullmatch(r'\s*(.*?[ \*])([A-Za-z_][A-Za-z0-9_]*)\s*', a)
+                if mm:
+                    self.ptypes[mm.group(2)] = re.sub(r'\s+', ' ', mm.group(1)).strip()
 
 def parse_cfg(text):
     funcs = {}
@@ -123,6 +129,10 @@ class Path:
         self.assigns = []   # (lvalue, value) of assignments to struct members / array cells
         self.arrays = {}    # local array with initialiser -> element expressions
         self.callvals = {}  # text of a helper call -> the value it returned on this path
+        self.decls = {}     # local variable -> declared type text ("unsigned char [2]", "u_int16_t", "whawty_response_t")
+        self.assign_at = [] # parallel to assigns: number of events recorded when the assignment happened
+        self.lastset = {}   # local variable -> (value, number of events recorded then) of its last assignment; unlike env it
+                            # survives the variable's address being handed to a call (the rules check what happened since)
         self.hdrvisits = 0  # how often the innermost loop header decided by constants has been entered (unrolling)
         self.ret = None     # returned expression (substituted), '' for plain return
         self.rawret = None
@@ -132,6 +142,7 @@ class Path:
         q.blocks = list(self.blocks)
         q.env, q.facts, q.events = dict(self.env), list(self.facts), list(self.events)
         q.assigns, q.arrays, q.callvals = list(self.assigns), dict(self.arrays), dict(self.callvals)
+        q.decls, q.assign_at, q.lastset = dict(self.decls), list(self.assign_at), dict(self.lastset)
         q.ret, q.rawret = self.ret, self.rawret
         q.hdrvisits = self.hdrvisits
         return q
@@ -153,7 +164,7 @@ class Path:
             e = re.sub(r'sizeof \(%s\) / sizeof \(%s\[0\]\)' % (re.escape(a), re.escape(a)), str(len(els)), e)
             def el(mm, els=els):
                 i = const_int(mm.group(1))
-                return els[i] if i is not None and 0 <= i < len(els) else mm.group(0)
+                return els[i] if i is not None and 0 <= i < len(els) and els[i] is not None else mm.group(0)
             e = re.sub(re.escape(a) + r'\[([^\[\]]+)\]', el, e)
         return fold(e)
 
@@ -175,9 +186,33 @@ def split_args(s):
         args.append(cur.strip())
     return args
 
+ENUMS = {}   # enumeration constant -> value (from the enum definitions of the module source)
+
+def parse_enums(src_text):
+    out = {}
+    for body in re.findall(r'\benum\b[^{};]*\{([^{}]*)\}', re.sub(r'//[^\n]*|/\*.*?\*/', '', src_text, flags=re.S)):
+        nxt = 0
+        for item in body.split(','):
+            item = item.strip()
+            if not item:
+                continue
+            mm = re.fullmatch(r'([A-Za-z_][A-Za-z0-9_]*)(?:\s*=\s*(.+))?', item, re.S)
+            if not mm:
+                break
+            if mm.group(2) is not None:
+                v = const_int(mm.group(2))
+                if v is None:
+                    break
+                nxt = v
+            out[mm.group(1)] = nxt
+            nxt += 1
+    return out
+
 def const_int(e):
     """value of an expression made of integer literals, parentheses and + - * / only."""
     t = e.strip()
+    if ENUMS and re.search(r'[A-Za-z_]', t):
+        t = re.sub(r'(?<![A-Za-z0-9_>.])[A-Za-z_][A-Za-z0-9_]*(?![A-Za-z0-9_(])', lambda m: str(ENUMS[m.group(0)]) if m.group(0) in ENUMS else m.group(0), t)
     if not re.fullmatch(r'[0-9()+\-*/ ]+', t) or not re.search(r'\d', t):
         return None
     try:
@@ -206,6 +241,12 @@ def const_cond(e):
 
 def fold(e):
     """(0 ? a : b) -> b, (1 ? a : b) -> a for literal conditions (after parameter substitution)."""
+    if ENUMS:   # a comparison of two enumeration constants (a mode argument of an inlined helper) is a literal condition
+        def ecmp(m):
+            if m.group(1) in ENUMS and m.group(3) in ENUMS:
+                return '(%d) ? ' % int((ENUMS[m.group(1)] == ENUMS[m.group(3)]) == (m.group(2) == '=='))
+            return m.group(0)
+        e = re.sub(r'\(([A-Za-z_][A-Za-z0-9_]*) (==|!=) ([A-Za-z_][A-Za-z0-9_]*)\) \? ', ecmp, e)
     for _ in range(8):
         m = re.search(r'(?<![A-Za-z0-9_)\]])(?:\(([01])\)|([01])) \? ', e)
         if not m:
@@ -232,6 +273,9 @@ def fold(e):
             break
         a, b = e[i:colon], e[colon + 3:j]
         e = e[:start] + (a if lit == '1' else b) + e[j:]
+    # (&x)->f is x.f,  *(&x) is x  (an object handed to a helper by address, after parameter substitution)
+    e = re.sub(r'\(&([A-Za-z_][A-Za-z0-9_.]*)\)->', lambda m: m.group(1) + '.', e)
+    e = re.sub(r'\*\(&([A-Za-z_][A-Za-z0-9_.]*)\)', lambda m: m.group(1), e)
     return e
 
 def helper_paths(name):
@@ -241,11 +285,34 @@ def helper_paths(name):
         return None
     _BUSY.add(name)
     try:
-        ps = [q for q in enum_paths(FUNCS[name]) if q.ret is not None]
+        ps = []
+        for q in enum_paths(FUNCS[name]):
+            if q.ret is None and q.blocks and q.blocks[-1] == FUNCS[name].exit:
+                q.ret = ''          # a void helper falling off its end: same as a plain return
+            if q.ret is not None:
+                ps.append(q)
     finally:
         _BUSY.discard(name)
     _PATHS[name] = ps
     return ps
+
+def strip_casts(e):
+    """drop pointer casts and parentheses around a call argument:  (const void *)(&len) -> &len"""
+    e = norm(e)
+    for _ in range(6):
+        m = re.match(r'^\((?:const |unsigned |signed |struct )*[A-Za-z_][A-Za-z0-9_ ]*\*+\)\s*(.+)$', e)
+        if not m:
+            break
+        e = norm(m.group(1))
+    return e
+
+def escape_arrays(P, cargs):
+    """a local array handed to a function that is not interpreted inline may be written by it: its elements are unknown
+    afterwards (its length stays known)."""
+    for a in cargs:
+        a = strip_casts(a)
+        if a in P.arrays:
+            P.arrays[a] = [None] * len(P.arrays[a])
 
 def inlinable(name):
     return name in FUNCS and name not in PINNED and FUNCS[name].entry is not None
@@ -304,10 +371,14 @@ def enum_paths(fn, limit=20000):
                 continue
             for (cal, cargs, cfull) in q.events:
                 P2.events.append((cal, [rename_params(h, args, x) for x in cargs], rename_params(h, args, cfull)))
-            for (lv, rv) in q.assigns:
+            for k, (lv, rv) in enumerate(q.assigns):
                 P2.assigns.append((rename_params(h, args, lv), rename_params(h, args, rv)))
-            v = rename_params(h, args, q.ret) if q.ret else ''
-            P2.callvals[full] = v if CALL.match(v) else '(' + v + ')'
+                P2.assign_at.append(len(P.events) + (q.assign_at[k] if k < len(q.assign_at) else len(q.events)))
+            # the value returned on this path of the helper: a ternary whose condition this path has decided is its arm
+            v = rename_params(h, args, fold_by_facts(q.facts, q.ret)) if q.ret else ''
+            P2.callvals[full] = v if CALL.match(v) else '(' + norm(v) + ')'
+            for ev in P2.events[len(P.events):]:
+                escape_arrays(P2, ev[1])
             out.append(P2)
         return out
 
@@ -331,34 +402,45 @@ def enum_paths(fn, limit=20000):
                 ret = P.subst(m.group(1)) if m.group(1) else ''
                 P.rawret = m.group(1) or ''
                 continue
+            # any declaration: remember the declared type
+            m = re.match(r'^((?:[A-Za-z_][A-Za-z0-9_]*[ \*]+)+)([A-Za-z_][A-Za-z0-9_]*)(\[[^\]]*\])?(?: = .*)?;$', raw)
+            if m and m.group(1).split()[0] not in ('return', 'goto'):
+                P.decls[m.group(2)] = re.sub(r'\s+', ' ', m.group(1)).strip() + ((' ' + m.group(3)) if m.group(3) else '')
+                P.lastset.pop(m.group(2), None)
             # array with initialiser:  T name[] = {a, b, c};
             m = re.match(r'^.*?\b([A-Za-z_][A-Za-z0-9_]*)\[\d*\] = \{(.*)\};$', txt)
             if m:
                 P.arrays[m.group(1)] = [P.subst(x) for x in split_args(m.group(2))]
+                for k, x in enumerate(P.arrays[m.group(1)]):
+                    P.assigns.append(('%s[%d]' % (m.group(1), k), x)); P.assign_at.append(len(P.events))
                 continue
             # declaration with initialiser:  T name = expr;
             m = re.match(r'^[A-Za-z_][A-Za-z0-9_ \*]*?\b([A-Za-z_][A-Za-z0-9_]*) = (.*);$', txt)
             if m and '==' not in txt.split('=')[0]:
                 P.env[m.group(1)] = '(' + P.subst(m.group(2)) + ')' if not CALL.match(P.subst(m.group(2))) else P.subst(m.group(2))
+                P.lastset[m.group(1)] = (P.env[m.group(1)], len(P.events))
                 continue
             m = re.match(r'^([A-Za-z_][A-Za-z0-9_]*) = (.*)$', txt)
             if m and not txt.endswith(';'):
                 val = P.subst(m.group(2))
                 P.env[m.group(1)] = val if CALL.match(val) else '(' + val + ')'
+                P.lastset[m.group(1)] = (P.env[m.group(1)], len(P.events))
                 continue
             m = re.match(r'^([A-Za-z_][A-Za-z0-9_]*) \+= (.*)$', txt)
             if m:
                 P.env[m.group(1)] = '(' + P.subst(m.group(1)) + ' + ' + P.subst(m.group(2)) + ')'
+                P.lastset[m.group(1)] = (P.env[m.group(1)], len(P.events))
                 continue
             m = re.match(r'^\+\+([A-Za-z_][A-Za-z0-9_]*)$', txt) or re.match(r'^([A-Za-z_][A-Za-z0-9_]*)\+\+$', txt)
             if m and not is_subexpr(blk, i):
                 cur = P.subst(m.group(1))
                 v = const_int(cur + ' + 1')
                 P.env[m.group(1)] = str(v) if v is not None else '(' + cur + ' + 1)'
+                P.lastset[m.group(1)] = (P.env[m.group(1)], len(P.events))
                 continue
             m = re.match(r'^([A-Za-z_][A-Za-z0-9_]*(?:(?:\.|->)[A-Za-z_][A-Za-z0-9_]*|\[[^\]]*\])+) = (.*)$', txt)
             if m and not txt.endswith(';') and not is_subexpr(blk, i):
-                P.assigns.append((m.group(1), P.subst(m.group(2))))
+                P.assigns.append((m.group(1), P.subst(m.group(2)))); P.assign_at.append(len(P.events))
                 continue
             is_call_stmt = re.match(r'^\[B\d+\.\d+\]\(.*\)$', raw) is not None
             m = CALL.match(txt) if is_call_stmt else None
@@ -375,6 +457,7 @@ def enum_paths(fn, limit=20000):
                 P.events.append((m.group(1), cargs, full))
                 for v in re.findall(r'&\(?([A-Za-z_][A-Za-z0-9_]*)\)?', full):
                     P.env.pop(v, None)
+                escape_arrays(P, cargs)
         if ret is not None or bid == fn.exit:
             P.ret = ret
             paths.append(P)
@@ -423,13 +506,22 @@ def block_cond(fn, blk):
             body = t[3:]
         elif t.startswith('while '):
             body = t[6:]
+        elif t.startswith('do ... while '):
+            body = t[len('do ... while '):]
         elif t.startswith('for ('):
             mm = re.match(r'^for \(\.\.\.; (\[B\d+\.\d+\]); \.\.\.\)$', t)
             body = mm.group(1) if mm else ''
         m2 = re.match(r'^(\[B\d+\.\d+\]) (&&|\|\|) \.\.\.$', body)
         m3 = re.match(r'^(\[B\d+\.\d+\]) (&&|\|\|) (\[B\d+\.\d+\])$', body)
-        m4 = re.match(r'^(\[B\d+\.\d+\]) \? \.\.\. : \.\.\.$', body)
-        if m2:
+        m4 = re.match(r'^\(*(\[B\d+\.\d+\])\)* \? \.\.\. : \.\.\.$', body)
+        # a short-circuit chain as the condition of a ternary / if:  ([B5.17] && [B4.6]) ? ... : ...   — the operand
+        # evaluated in this block decides (the earlier operands left through their own blocks)
+        m5 = re.match(r'^\(?((?:\[B\d+\.\d+\]|[()]| && | \|\| )+?)\)?(?: \? \.\.\. : \.\.\.)?$', body)
+        if not (m2 or m3 or m4) and m5 and len(REF.findall(m5.group(1))) >= 2:
+            refs = ['[B%s.%s]' % r for r in REF.findall(m5.group(1))]
+            mine = [r for r in refs if int(REF.match(r).group(1)) == blk.id]
+            cond = resolve(fn, mine[-1] if mine else refs[-1])
+        elif m2:
             cond = resolve(fn, m2.group(1))
         elif m3:
             # the operand evaluated in this block decides
@@ -499,7 +591,7 @@ def flat(s):
 def known_zero(P, expr):
     """facts establish expr == 0 (C truthiness)."""
     e = norm(expr)
-    for f, t in P.facts:
+    for f, t in closed_facts(P):
         f = norm(f)
         if f == e and not t:
             return True
@@ -513,7 +605,7 @@ def known_zero(P, expr):
 
 def known_nonzero(P, expr):
     e = norm(expr)
-    for f, t in P.facts:
+    for f, t in closed_facts(P):
         f = norm(f)
         if f == e and t:
             return True
@@ -544,7 +636,53 @@ def split_top(e, op):
 def closed_facts(P):
     """the path's facts plus what follows propositionally from compound conditions (a || b false -> both false,
     a && b false with a true -> b false, ...), to a fixpoint."""
-    facts = [(norm(f), t) for f, t in P.facts]
+    return _closure(P.facts)[0]
+
+def path_truth(facts, e):
+    """truth value of the condition e under the (propositionally closed) facts; None if they do not decide it."""
+    cc = const_cond(e)
+    if cc is not None:
+        return cc
+    return _closure(facts)[1](e)
+
+def split_ternary(e):
+    """(cond, a, b) if e is, as a whole, `cond ? a : b`."""
+    e = norm(e)
+    d, q = 0, -1
+    i = 0
+    nest = 0
+    while i < len(e):
+        ch = e[i]
+        if ch in '([':
+            d += 1
+        elif ch in ')]':
+            d -= 1
+        elif d == 0 and e.startswith(' ? ', i):
+            if q < 0:
+                q = i
+            else:
+                nest += 1
+        elif d == 0 and e.startswith(' : ', i) and q >= 0:
+            if nest == 0:
+                return norm(e[:q]), norm(e[q + 3:i]), norm(e[i + 3:])
+            nest -= 1
+        i += 1
+    return None
+
+def fold_by_facts(facts, e):
+    """`c ? a : b` -> a / b where the path's own branch facts decide c (the value a helper returned on this path)."""
+    for _ in range(6):
+        t = split_ternary(e)
+        if not t:
+            break
+        v = path_truth(facts, t[0])
+        if v is None:
+            break
+        e = t[1] if v else t[2]
+    return e
+
+def _closure(pfacts):
+    facts = [(norm(f), t) for f, t in pfacts]
     known = {flat(f): t for f, t in facts if not re.search(r'\|\||&&', f) or len(split_top(f, '||')) == 1 and len(split_top(f, '&&')) == 1}
     def neg(e):
         e = norm(e)
@@ -596,7 +734,7 @@ def closed_facts(P):
             ch |= force(f, t)
         if not ch:
             break
-    return facts
+    return facts, val
 
 def fact_holds(P, text, truth):
     t0 = norm(text)
@@ -638,9 +776,12 @@ def load_known(prop):
 EXPLAIN = ("The PAM module succeeds only on an explicit OK — structural part decided on every acyclic path of clang's source-level CFG "
            "of pam/pam_whawty.c (stub PAM headers): (C20.1) pam_sm_authenticate can return PAM_SUCCESS only as the result of "
            "_whawty_check_password, which returns it only after open, send and receive each returned success and strncmp(\"OK\", response, 2)==0; "
-           "every helper returns success only after all its steps succeeded; (C20.2) buffer discipline: response has MAX+1 bytes, is zeroed, and at most "
-           "min(ntohs(len), MAX) bytes are read into it; the socket path copy is bounded by sizeof; no unbounded copy functions; (C20.3 = C13.4) the request is "
-           "user, password, \"\", \"\" in this order, each sent as htons(min(strlen, 256)) in a 2-byte field followed by that many bytes, and the C limit equals the "
+           "every helper returns success only after all its steps succeeded (every transfer returned exactly its length operand); the compared buffer is the object "
+           "_whawty_recv_response fills, zeroed over its whole size (by the caller or by _whawty_recv_response itself before its first read); "
+           "(C20.2) buffer discipline: that object has MAX+1 bytes (declaration / clang record layout), and at most "
+           "min(ntohs(len), MAX) bytes are read into it, the length being decoded big-endian from a 2-byte field (a 16-bit integer through ntohs, or two unsigned bytes (b0 << 8) | b1); "
+           "the socket path copy is bounded by sizeof; no unbounded copy functions; (C20.3 = C13.4) the request is "
+           "user, password, \"\", \"\" in this order, each sent as htons(min(strlen, 256)) in a 2-byte field (or its two bytes (x >> 8) & 0xff, x & 0xff) followed by that many bytes, and the C limit equals the "
            "Go codec's MaxRequestLength; (C20.4) every read/write on the socket is preceded in its loop iteration by select() with a timeout from ctx->timeout_, a zero "
            "return of select leaves the function, every iteration that goes round again has transferred a non-zero count (a 0-byte read/write leaves the loop; no errno test in its place), "
            "and the timeout option only accepts positive values; (C20.5) every exit of pam_sm_authenticate passes _whawty_cleanup, "
@@ -648,7 +789,8 @@ EXPLAIN = ("The PAM module succeeds only on an explicit OK — structural part d
 UNDEC = ["run-time behaviour of the compiled module against real servers", "timing (wall-clock bounds)", "memory safety at the level of a sanitizer run",
          "host-process state outside the property's quantifier (observed, not findings: the EINTR test in both select loops is inverted so a persistent non-EINTR select error spins; FD_SET is used without an FD_SETSIZE check)"]
 TRUSTED = ["clang 14's parser and CFG builder", "the stub PAM headers in /verif/pam/stubs (declare the PAM API; map _pam_overwrite/_pam_drop to marker functions)",
-           "libc semantics of socket/select/read/write/snprintf/strncmp/htons/ntohs", "local variables are not modified through aliases (none has its address taken except len/addr/tv/fd sets passed to libc)"]
+           "libc semantics of socket/select/read/write/snprintf/strncmp/htons/ntohs", "local variables are not modified through aliases (none has its address taken except len/addr/tv/fd sets passed to libc; an array handed to a call is unknown afterwards)",
+           "clang's record layout dump (-fdump-record-layouts) for the size of a struct-typed response buffer", "size_t, ssize_t and long have the same width (a cast between them does not change an equality)"]
 
 def finish(c):
     known = load_known(c.prop)
@@ -711,6 +853,161 @@ def line_of(name):
         pass
     return "pam/pam_whawty.c"
 
+# ---- normalisers shared by the rules (one meaning, several spellings)
+
+LAYOUTS = {}    # record type name -> {"size": n, "fields": {name: (offset, type text)}}   (clang -fdump-record-layouts)
+
+def parse_layouts(text):
+    out, cur = {}, None
+    for line in text.splitlines():
+        m = re.match(r'^\s*0 \| (?:struct |union )?([A-Za-z_][A-Za-z0-9_]*)\s*$', line)
+        if m:
+            cur = {"size": None, "fields": {}}
+            out[m.group(1)] = cur
+            continue
+        if cur is None:
+            continue
+        m = re.match(r'^\s*(\d+) \|   (\S.*?)\s+([A-Za-z_][A-Za-z0-9_]*)\s*$', line)
+        if m:
+            cur["fields"][m.group(3)] = (int(m.group(1)), m.group(2).strip())
+            continue
+        m = re.match(r'^\s*\| \[sizeof=(\d+)', line)
+        if m:
+            cur["size"] = int(m.group(1))
+            cur = None
+    return out
+
+U16 = {"u_int16_t", "uint16_t", "unsigned short", "unsigned short int", "__uint16_t"}
+U8 = {"unsigned char", "uint8_t", "u_int8_t", "__uint8_t"}
+WIDE = r'\((?:size_t|ssize_t|long|unsigned long|long int|unsigned long int)\)\s*'          # same width: equality is not affected
+ANYINT = r'\((?:size_t|ssize_t|long|unsigned long|int|unsigned int|unsigned|u_int16_t|uint16_t|unsigned short|u_int32_t|uint32_t)\)\s*'
+
+def same(a, b):
+    return flat(a) == flat(b)
+
+def clip_of(e):
+    """X if e is `X > 256 ? 256 : X` (the only accepted spelling of min(X, 256), as before), else None."""
+    t = split_ternary(e)
+    if not t:
+        return None
+    m = re.fullmatch(r'(.+) > %d' % MAXC, t[0])
+    if not m or norm(t[1]) != str(MAXC) or not same(m.group(1), t[2]):
+        return None
+    return norm(t[2])
+
+def len_field(p, data, size):
+    """the object a length field is transferred from / into, if it is exactly two bytes wide:
+    ('int16', v) for `&v` with v a 16-bit unsigned integer, ('bytes', v) for an array of two unsigned bytes; else None."""
+    d, sz = strip_casts(data), norm(size)
+    m = re.fullmatch(r'&\(?([A-Za-z_][A-Za-z0-9_]*)\)?', d)
+    if m:
+        v = m.group(1)
+        if p.decls.get(v) in U16 and sz in ('sizeof (%s)' % v, 'sizeof(%s)' % v, '2'):
+            return ('int16', v)
+        return None
+    if re.fullmatch(r'[A-Za-z_][A-Za-z0-9_]*', d):
+        mm = re.fullmatch(r'(.+?) \[(\d+)\]', p.decls.get(d, ''))
+        if mm and mm.group(1) in U8 and int(mm.group(2)) == 2 and sz in ('sizeof (%s)' % d, 'sizeof(%s)' % d, '2'):
+            return ('bytes', d)
+    return None
+
+def untouched(p, fld, lo, hi):
+    """no call recorded in events[lo:hi] was handed the address of the field (it could have written it): &v for an
+    integer, v or &v for an array."""
+    kind, v = fld
+    for e in p.events[lo:hi]:
+        for a in e[1]:
+            if re.fullmatch((r'&\(?%s\)?' if kind == 'int16' else r'&?\(?%s\)?(?:\[0\])?') % re.escape(v), strip_casts(a)):
+                return False
+    return True
+
+def encoded_value(p, fld, k):
+    """X if, when event k (the write of the field) happens, the field holds X as a 16-bit big-endian integer:
+    int16 v = htons(X), or bytes v[0] = (X >> 8) & 0xff, v[1] = X & 0xff."""
+    kind, v = fld
+    if kind == 'int16':
+        if v not in p.lastset:
+            return None
+        val, at = p.lastset[v]
+        if at > k or not untouched(p, fld, at, k):
+            return None
+        m = CALL.match(norm(val))
+        if not m or m.group(1) != 'htons' or len(split_args(m.group(2))) != 1:
+            return None
+        return norm(split_args(m.group(2))[0])
+    cells = {}
+    for (lv, rv), at in zip(p.assigns, p.assign_at):
+        m = re.fullmatch(re.escape(v) + r'\[(.+)\]', norm(lv))
+        if not m or at > k:
+            continue
+        i = const_int(m.group(1))
+        if i is None:
+            return None             # a store at an unknown index
+        cells[i] = (rv, at)
+    if set(cells) != {0, 1} or not all(untouched(p, fld, at, k) for _, at in cells.values()):
+        return None
+    def byte(e):
+        e = norm(e)
+        e = norm(re.sub(r'^\((?:unsigned char|uint8_t|u_int8_t)\)\s*', '', e))
+        return e
+    hi, lo = byte(cells[0][0]), byte(cells[1][0])
+    m = re.fullmatch(r'(.+) & 255', hi)
+    if m:
+        hi = norm(m.group(1))
+    m = re.fullmatch(r'(.+) >> 8', hi)
+    if not m:
+        return None
+    x = norm(m.group(1))
+    m = re.fullmatch(r'(.+) & 255', lo)
+    y = norm(m.group(1)) if m else lo      # storing X in an unsigned char keeps its low byte
+    return x if same(x, y) else None
+
+def decoded_value(p, fld, e, k0, k1):
+    """True if e reads the field filled by event k0 (unchanged up to event k1) as a 16-bit big-endian integer:
+    ntohs(v), or (v[0] << 8) | v[1]  (casts to wider integers, + for |, * 256 for << 8 accepted)."""
+    kind, v = fld
+    if not untouched(p, fld, k0 + 1, k1):
+        return False
+    if kind == 'int16':
+        if v in p.lastset and p.lastset[v][1] > k0:
+            return False
+        return norm(e) in ('ntohs(%s)' % v, 'ntohs((%s))' % v)
+    for (lv, rv), at in zip(p.assigns, p.assign_at):
+        if re.fullmatch(re.escape(v) + r'\[.+\]', norm(lv)) and at > k0:
+            return False
+    t = norm(re.sub(ANYINT, '', e))
+    for op in (' | ', ' + '):
+        parts = split_top(t, op)
+        if len(parts) == 2:
+            a, b = norm(parts[0]), norm(parts[1])
+            if a in ('%s[0] << 8' % v, '%s[0] * 256' % v, '256 * %s[0]' % v) and b == '%s[1]' % v:
+                return True
+    return False
+
+def obj_of(e):
+    """the object a pointer argument designates:  &x -> x,  x (array / struct variable) -> x,  x.f -> x.f"""
+    e = strip_casts(e)
+    m = re.fullmatch(r'&\(?([A-Za-z_][A-Za-z0-9_.]*)\)?', e)
+    return m.group(1) if m else e
+
+def obj_size(p, o):
+    """size in bytes of a local object o (`response`, `response.msg_`) from its declaration; None if unknown."""
+    base, _, fld = o.partition('.')
+    ty = p.decls.get(base)
+    if ty is None:
+        return None
+    m = re.fullmatch(r'(?:unsigned |signed )?char \[(\d+)\]', ty)
+    if m and not fld:
+        return int(m.group(1))
+    lay = LAYOUTS.get(re.sub(r'^(?:struct|union) ', '', ty))
+    if lay is None:
+        return None
+    if not fld:
+        return lay["size"]
+    f = lay["fields"].get(fld)
+    m = re.fullmatch(r'(?:unsigned |signed )?char\s*\[(\d+)\]', f[1]) if f else None
+    return int(m.group(1)) if m else None
+
 def run_rules(c, funcs, src_text, thorough):
     need = ["pam_sm_authenticate", "_whawty_check_password", "_whawty_open_socket", "_whawty_send_request", "_whawty_send_request_part",
             "_whawty_recv_response", "_whawty_read_data", "_whawty_write_data", "_whawty_cleanup", "_whawty_ctx_init", "_whawty_get_password", "_whawty_parse_args"]
@@ -720,11 +1017,18 @@ def run_rules(c, funcs, src_text, thorough):
     if any(n not in funcs for n in need):
         return
     FUNCS.clear(); FUNCS.update(funcs); _PATHS.clear(); INLINED.clear()
+    ENUMS.clear(); ENUMS.update(parse_enums(src_text))
     P = {n: enum_paths(funcs[n]) for n in funcs if not inlinable(n)}
     c.stats["helpers_interpreted_inline"] = len(INLINED)
     c.stats["functions"] = len(funcs)
     c.stats["cfg_blocks"] = sum(len(f.blocks) for f in funcs.values())
     c.stats["cfg_paths_enumerated"] = sum(len(v) for v in P.values())
+    for dn in [x for x in os.environ.get("VERIF_PAM_DUMP", "").split(",") if x]:   # debugging aid: every enumerated path of a function
+        for k, p in enumerate((P.get(dn) or helper_paths(dn) or []) + [("back", b) for b in BACK.get(dn, [])]):
+            tag = ""
+            if isinstance(p, tuple):
+                tag, p = "BACK ", p[1]
+            sys.stderr.write("%s%s path %d blocks=%s ret=%r\n  facts=%s\n  events=%s\n  assigns=%s\n  env=%s\n  callvals=%s\n" % (tag, dn, k, p.blocks, p.ret, p.facts, [e[2] for e in p.events], p.assigns, p.env, p.callvals))
 
     # ---- C20.1 (a) pam_sm_authenticate
     bad, n = [], 0
@@ -745,8 +1049,42 @@ def run_rules(c, funcs, src_text, thorough):
     c.check(not bad and n >= 3, "C20.1", "pam_sm_authenticate|success-only-via-check_password", line_of("pam_sm_authenticate"),
             "%d return paths: PAM_SUCCESS can only be _whawty_check_password's result; earlier exits return a value tested != PAM_SUCCESS" % n, "; ".join(sorted(set(bad))))
 
+    # ---- the response buffer: which object _whawty_recv_response fills (in terms of its parameters), and whether it zeroes it itself
+    R = funcs["_whawty_recv_response"]
+    rbad = []
+    targets = set()
+    for p in P["_whawty_recv_response"]:
+        rs = [e for e in p.events if e[0] == "_whawty_read_data"]
+        if p.ret is not None and norm(p.ret) == "0" and len(rs) == 2:
+            targets.add(strip_casts(rs[1][1][1]))
+    rtarget = None          # `buf` or `resp->msg_`: the payload goes to the object the second parameter points to
+    if len(targets) == 1 and len(R.params) >= 2:
+        t = targets.pop()
+        if re.fullmatch(re.escape(R.params[1]) + r'(?:->[A-Za-z_][A-Za-z0-9_]*)?', t):
+            rtarget = t
+        else:
+            rbad.append("the payload is read into %s, not into the buffer handed in as %s" % (t, R.params[1]))
+    else:
+        rbad.append("the success paths of _whawty_recv_response do not read the payload into one buffer: %s" % sorted(targets))
+    # zeroing inside _whawty_recv_response: on every path, before the first read, memset(<param>, 0, <its whole size>)
+    callee_zero = None      # (target, size) in terms of the parameters, or None
+    zs = set()
+    for p in P["_whawty_recv_response"]:
+        names = [e[0] for e in p.events]
+        if "_whawty_read_data" not in names:
+            continue
+        first = names.index("_whawty_read_data")
+        ms = [e for e in p.events[:first] if e[0] == "memset"]
+        zs.add(tuple(norm(a) for a in ms[-1][1]) if ms else None)
+    if len(zs) == 1 and None not in zs:
+        z = zs.pop()
+        # sizeof(<pointer parameter>) is the size of a pointer, never of the buffer
+        if len(z) == 3 and z[1] == '0' and not any(re.search(r'sizeof ?\(\(?%s\)?\)' % re.escape(q), z[2]) for q in R.params):
+            callee_zero = (z[0], z[2])
+
     # ---- C20.1 (b) _whawty_check_password
-    bad, nsucc = [], 0
+    bad, nsucc = list(rbad), 0
+    resp_obj = None         # the caller's object the verdict is read from
     for p in P["_whawty_check_password"]:
         if p.ret is None:
             continue
@@ -759,22 +1097,38 @@ def run_rules(c, funcs, src_text, thorough):
             bad.append("may return success through %s (path %s)" % (r, p.blocks))
             continue
         nsucc += 1
+        rcvs = [e for e in p.events if e[0] == "_whawty_recv_response"]
+        if rtarget is not None and len(rcvs) == 1 and len(rcvs[0][1]) >= 2:
+            resp_obj = (p, obj_of(norm(rename_params(R, rcvs[0][1], rtarget))))
         order = [e[0] for e in p.events if e[0] in ("_whawty_open_socket", "_whawty_send_request", "_whawty_recv_response", "strncmp", "memset")]
         want = ["_whawty_open_socket", "_whawty_send_request", "memset", "_whawty_recv_response", "strncmp"]
-        if order != want:
+        inner = ["_whawty_open_socket", "_whawty_send_request", "_whawty_recv_response", "strncmp"]
+        if not (order == want or (order == inner and callee_zero is not None)):
             bad.append("success path does not perform open, send, zero the buffer, receive, compare in this order: %s" % order)
             continue
-        for call in ("_whawty_open_socket(ctx)", "_whawty_send_request(ctx)", "_whawty_recv_response(ctx, response)"):
+        rcv = [e for e in p.events if e[0] == "_whawty_recv_response"][0]
+        for call in ("_whawty_open_socket(ctx)", "_whawty_send_request(ctx)", rcv[2]):
             if not known_zero(p, call):
                 bad.append("PAM_SUCCESS returned without %s having returned PAM_SUCCESS" % call)
+        if rtarget is None or len(rcv[1]) < 2:
+            continue
+        # the object filled by the receive, in the caller's terms:  response  /  response.msg_
+        buf = norm(rename_params(R, rcv[1], rtarget))
         cmpev = [e for e in p.events if e[0] == "strncmp"][0]
-        if [norm(a) for a in cmpev[1]] != ['"OK"', 'response', '2']:
-            bad.append("the verdict comparison is strncmp(%s), expected strncmp(\"OK\", response, 2)" % ", ".join(cmpev[1]))
+        if [norm(a) for a in cmpev[1]] != ['"OK"', buf, '2']:
+            bad.append("the verdict comparison is strncmp(%s), expected strncmp(\"OK\", %s, 2)" % (", ".join(cmpev[1]), buf))
         if not known_zero(p, cmpev[2]):
-            bad.append("PAM_SUCCESS returned although strncmp(\"OK\", response, 2) is not known to be 0 (path %s, facts %s)" % (p.blocks, p.facts[-2:]))
-        ms = [e for e in p.events if e[0] == "memset"][0]
-        if [norm(a) for a in ms[1]] != ['response', '0', 'sizeof (response)']:
-            bad.append("response buffer is not zeroed over its whole size: memset(%s)" % ", ".join(ms[1]))
+            bad.append("PAM_SUCCESS returned although strncmp(\"OK\", %s, 2) is not known to be 0 (path %s, facts %s)" % (buf, p.blocks, p.facts[-2:]))
+        # zeroing of the whole buffer (or of the object that contains it) before anything is read into it
+        if order == want:
+            ms = [e for e in p.events if e[0] == "memset"][0]
+            z = [norm(a) for a in ms[1]]
+        else:
+            z = [norm(rename_params(R, rcv[1], callee_zero[0])), '0', norm(rename_params(R, rcv[1], callee_zero[1]))]
+        zo = obj_of(z[0])
+        if not (len(z) == 3 and z[1] == '0' and (zo == obj_of(buf) or obj_of(buf).startswith(zo + '.')) and z[2] in ('sizeof (%s)' % zo, 'sizeof(%s)' % zo)
+                and obj_size(p, zo) is not None):
+            bad.append("response buffer %s is not zeroed over its whole size before the receive: memset(%s)" % (buf, ", ".join(z)))
     c.check(not bad and nsucc == 1, "C20.1", "_whawty_check_password|success-guards", line_of("_whawty_check_password"),
             "the single PAM_SUCCESS path: open==0 ∧ send==0 ∧ recv==0 ∧ strncmp(\"OK\", response, 2)==0 on the zeroed buffer", "; ".join(sorted(set(bad))) + " (%d success paths)" % nsucc)
 
@@ -817,8 +1171,9 @@ def run_rules(c, funcs, src_text, thorough):
             if len(evs) != 2:
                 bad.append("%d transfers on the success path (length field and payload expected)" % len(evs))
             for e in evs:
-                want = flat(e[2]) + "!=" + flat(e[1][2])
-                if not any(flat(f) == want and not t for f, t in p.facts):
+                # ret != n false, ret == n true; a cast of either side to an integer of the same width does not change equality
+                x, n = flat(re.sub(WIDE, '', e[2])), flat(re.sub(WIDE, '', e[1][2]))
+                if not any((flat(re.sub(WIDE, '', f)) in (x + "!=" + n, n + "!=" + x) and not t) or (flat(re.sub(WIDE, '', f)) in (x + "==" + n, n + "==" + x) and t) for f, t in closed_facts(p)):
                     bad.append("success returned without %s(...) == %s having been established (short transfer accepted)" % (prim, e[1][2]))
         return bad, ns
     bad, ns = exact_transfers("_whawty_recv_response", "_whawty_read_data")
@@ -839,22 +1194,27 @@ def run_rules(c, funcs, src_text, thorough):
     c.check(not bad, "C20.3", "_whawty_send_request|field-order", line_of("_whawty_send_request"), "user, password, empty service, empty realm — the Go decoder's positions 0..3", "; ".join(bad))
     bad = []
     okp = [p for p in P["_whawty_send_request_part"] if p.ret is not None and norm(p.ret) == "0"]
+    fields = set()
     for p in okp:
         ws = [e for e in p.events if e[0] == "_whawty_write_data"]
         if len(ws) != 2:
             bad.append("%d writes per part" % len(ws))
             continue
-        l = norm(p.env.get("l", ""))
-        clip = r'\(?\(?\(?strlen\(part\)\)?\)? > %d\)? \? %d : \(?\(?strlen\(part\)\)?\)?' % (MAXC, MAXC)
-        if not re.fullmatch(clip, l):
-            bad.append("part length is %s, expected strlen(part) clipped to %d" % (l, MAXC))
-        hs = [e for e in p.events if e[0] == "htons"]
-        if len(hs) != 1 or flat(hs[0][1][0]) != flat(l):
-            bad.append("length field is not htons(clipped length): %s" % [e[2] for e in hs])
         a0, a1 = [norm(a) for a in ws[0][1]], [norm(a) for a in ws[1][1]]
-        if not (a0[0] == "sock" and "&len" in a0[1] and a0[2] == "sizeof (len)"):
+        l = a1[2]                       # the number of payload bytes sent
+        if clip_of(l) is None or not same(clip_of(l), "strlen(part)"):
+            bad.append("part length is %s, expected strlen(part) clipped to %d" % (l, MAXC))
+        fld = len_field(p, a0[1], a0[2])
+        fields.add(fld[0] if fld else None)
+        if not (a0[0] == "sock" and fld is not None):
             bad.append("first write is not the 2-byte length field: %s" % a0)
-        if not (a1[0] == "sock" and "part" in a1[1] and flat(a1[2]) == flat(l)):
+        else:
+            x = encoded_value(p, fld, p.events.index(ws[0]))
+            if x is None or not same(x, l):
+                bad.append("length field is not htons(clipped length) / its two bytes in network order: %s" % (x if x is not None else [e[2] for e in p.events if e[0] == "htons"] + [a for a in p.assigns if a[0].startswith(fld[1] + "[")]))
+            if fld[0] == 'int16' and len([e for e in p.events if e[0] == "htons"]) != 1:
+                bad.append("%d htons() calls for one length field" % len([e for e in p.events if e[0] == "htons"]))
+        if not (a1[0] == "sock" and strip_casts(a1[1]) == "part"):
             bad.append("second write is not exactly the clipped payload: %s" % a1)
     c.check(not bad and len(okp) >= 1, "C20.3", "_whawty_send_request_part|frame", line_of("_whawty_send_request_part"), "htons(min(strlen(part), 256)) in a 2-byte field, then exactly that many bytes", "; ".join(sorted(set(bad))))
     # constants
@@ -868,31 +1228,30 @@ def run_rules(c, funcs, src_text, thorough):
         pass
     c.check(cmax == MAXC and gomax == cmax, "C20.3", "limit|WHAWTY_REQUEST_MAX_PARTLEN==MaxRequestLength==256", "pam/pam_whawty.c",
             "C limit %d equals the Go codec's MaxRequestLength %d" % (cmax, gomax), "C limit %d, Go MaxRequestLength %d, protocol limit 256" % (cmax, gomax))
-    c.check(re.search(r'u_int16_t\s+len\s*=\s*htons', src_text) is not None or re.search(r'uint16_t\s+len\s*=\s*htons', src_text) is not None, "C20.3", "length-field|16-bit",
-            line_of("_whawty_send_request_part"), "the length field is a 16-bit integer in network byte order", "the length field is not declared as a 16-bit integer initialised with htons()")
+    c.check(len(okp) >= 1 and fields and None not in fields, "C20.3", "length-field|16-bit",
+            line_of("_whawty_send_request_part"), "the length field is a 16-bit integer in network byte order (%s)" % ", ".join(sorted(x for x in fields if x)),
+            "the length field written first is not a 16-bit unsigned integer (or an array of two unsigned bytes) sent with its own size")
 
     # ---- C20.2 buffer discipline
     bad = []
-    decl = re.search(r'char\s+response\[\s*WHAWTY_REQUEST_MAX_PARTLEN\s*\+\s*1\s*\]', src_text)
-    if not decl:
-        # accept an explicit size larger than the limit
-        m2 = re.search(r'char\s+response\[\s*(\d+)\s*\]', src_text)
-        if not (m2 and int(m2.group(1)) >= MAXC + 1):
-            bad.append("response buffer is not declared with WHAWTY_REQUEST_MAX_PARTLEN + 1 bytes")
+    cap = obj_size(*resp_obj) if resp_obj else None
+    if cap is None or cap < MAXC + 1:
+        bad.append("response buffer is not declared with WHAWTY_REQUEST_MAX_PARTLEN + 1 bytes (%s has %s)" % (resp_obj[1] if resp_obj else "the buffer compared with \"OK\"", cap))
     okr = [p for p in P["_whawty_recv_response"] if p.ret is not None and norm(p.ret) == "0"]
     for p in okr:
         rs = [e for e in p.events if e[0] == "_whawty_read_data"]
         if len(rs) != 2:
             bad.append("%d reads in recv_response" % len(rs))
             continue
-        l = norm(p.env.get("l", ""))
-        if not re.fullmatch(r'\(?\(?\(?ntohs\(len\)\)?\)? > %d\)? \? %d : \(?\(?ntohs\(len\)\)?\)?' % (MAXC, MAXC), l):
-            bad.append("read length is %s, expected ntohs(len) clipped to %d" % (l, MAXC))
         a0, a1 = [norm(a) for a in rs[0][1]], [norm(a) for a in rs[1][1]]
-        if not ("&len" in a0[1] and a0[2] == "sizeof (len)"):
+        l = a1[2]                       # the number of bytes read into the buffer
+        fld = len_field(p, a0[1], a0[2])
+        if fld is None:
             bad.append("first read is not the 2-byte length: %s" % a0)
-        if not ("buf" in a1[1] and flat(a1[2]) == flat(l)):
-            bad.append("payload read is not bounded by the clipped length: %s" % a1)
+        elif clip_of(l) is None or not decoded_value(p, fld, clip_of(l), p.events.index(rs[0]), p.events.index(rs[1])):
+            bad.append("read length is %s, expected ntohs(len) clipped to %d" % (l, MAXC))
+        if rtarget is None or strip_casts(a1[1]) != rtarget:
+            bad.append("payload read is not into the response buffer: %s" % a1)
     if len(okr) < 1:
         bad.append("no success path in recv_response")
     c.check(not bad, "C20.2", "response-buffer|bounded-read", line_of("_whawty_recv_response"), "257-byte zeroed buffer, at most min(ntohs(len), 256) bytes read into it (always NUL-terminated)", "; ".join(sorted(set(bad))))
@@ -1072,6 +1431,8 @@ def main():
             c.undecided("C20.0", "parse" + "".join(extra), "pam/pam_whawty.c", "clang cannot parse the module with the stub headers: " + syn.stderr.strip().splitlines()[0] if syn.stderr.strip() else "clang failed")
             continue
         c.stats["clang_warnings" + "".join(extra)] = syn.stderr.count("warning:")
+        lay = subprocess.run(["clang", "-fsyntax-only", "-Xclang", "-fdump-record-layouts"] + flags + extra + [SRC], capture_output=True, text=True)
+        LAYOUTS.clear(); LAYOUTS.update(parse_layouts(lay.stdout))
         cfg = subprocess.run(["clang", "--analyze", "-Xclang", "-analyzer-checker=debug.DumpCFG", "-Xclang", "-analyzer-disable-all-checks"] + flags + extra + [SRC, "-o", "/dev/null"], capture_output=True, text=True)
         text = cfg.stderr + cfg.stdout
         funcs = parse_cfg(text)
